@@ -1038,7 +1038,9 @@ func (a *allowerContext) newMembershipAllower(authEvents AuthEventProvider, even
 		return
 	}
 	// If this event comes from a third_party_invite, we need to check it against the original event.
-	if m.newMember.ThirdPartyInvite != nil {
+	// Only invites are decided by such a block; any other membership carrying one (a join keeping
+	// the content of the invite it follows, say) is judged by the ordinary rules.
+	if m.newMember.ThirdPartyInvite != nil && m.newMember.Membership == spec.Invite {
 		token := m.newMember.ThirdPartyInvite.Signed.Token
 		if m.thirdPartyInvite, err = NewThirdPartyInviteContentFromAuthEvents(authEvents, token); err != nil {
 			return
